@@ -84,8 +84,20 @@ def coq_project():
 def make(targets, timeout=3000):
     """Full .vo build of the given targets (never -vos).  Returns (ok, log)."""
     coq_project()
-    rc, out = sh(["timeout", str(timeout), "make", "-j%d" % NPROC] + targets, cwd=COQ, timeout=timeout + 60)
-    return rc == 0, out
+    out = ""
+    for attempt in range(8):
+        rc, out = sh(["timeout", str(timeout), "make", "-j%d" % NPROC] + targets, cwd=COQ, timeout=timeout + 60)
+        if rc == 0:
+            return True, out
+        # compiled files left behind by an interrupted or out-of-band build: remove the stale ones and retry
+        stale = re.findall(r"Compiled library \S+ \(in file (\S+\.vo)\) makes inconsistent assumptions", out)
+        stale += [f + "o" for f in re.findall(r"[Cc]orrupted compiled library|(\S+\.v)o: premature end|bad version number", out) if f]
+        stale = [f for f in set(stale) if f.startswith(COQ) and os.path.exists(f)]
+        if not stale:
+            break
+        for f in stale:
+            os.remove(f)
+    return False, out
 
 
 def forbidden_scan():
